@@ -19,7 +19,9 @@ VERIF = os.path.dirname(os.path.dirname(os.path.abspath(__file__)))
 REPO = os.environ.get("VERIF_REPO", "/repo")
 CACHE = os.path.join(VERIF, ".cache")
 LEAN_DIR = os.path.join(VERIF, "lean")
-EVIDENCE_DIR = os.path.join(VERIF, "evidence")
+# a run against another tree (VERIF_REPO=…, used to try seeded changes) must not overwrite the evidence of /repo
+_ALT = os.path.abspath(REPO) != "/repo"
+EVIDENCE_DIR = os.path.join(CACHE, "alt_evidence") if _ALT else os.path.join(VERIF, "evidence")
 REPLAY_DIR = os.path.join(VERIF, "replays")
 NCPU = os.cpu_count() or 4
 
